@@ -35,4 +35,27 @@ theorem addSlice64_eq_fast (s : Nat) (b : Bytes) : addSlice64 s b = addSlice64Fa
 @[csimp] theorem addSlice64_csimp : @addSlice64 = @addSlice64Fast := by
   funext s b; exact addSlice64_eq_fast s b
 
+/-- the same for the 32 bit accumulator (four bytes per step) -/
+def addSlice32Fast (s : Nat) : Bytes → Nat
+  | b0 :: b1 :: b2 :: b3 :: rest => addSlice32Fast (add4_32 s [b0, b1, b2, b3]) rest
+  | r => tail32 s r
+
+theorem addSlice32_eq_fast (s : Nat) (b : Bytes) : addSlice32 s b = addSlice32Fast s b := by
+  fun_induction addSlice32Fast s b with
+  | case1 s b0 b1 b2 b3 rest ih =>
+    rw [addSlice32]
+    simp only [List.length_cons]
+    rw [if_pos (by omega)]
+    simpa using ih
+  | case2 s r hne =>
+    rw [addSlice32]
+    have : ¬ 4 ≤ r.length := by
+      intro h
+      match r, h with
+      | b0 :: b1 :: b2 :: b3 :: rest, _ => exact hne _ _ _ _ _ rfl
+    rw [if_neg this]
+
+@[csimp] theorem addSlice32_csimp : @addSlice32 = @addSlice32Fast := by
+  funext s b; exact addSlice32_eq_fast s b
+
 end EpModel.Checksum
